@@ -130,12 +130,16 @@ class DuctRecorder:
             else:
                 T_out = pre['coolant_byp'][i]
                 h_out = h_byp[i][didx]
+            Lw = float(reg.duct_params['thickness'][i])
             if p_duct is None:
                 qtp = np.zeros(ndc)
             else:
+                # volumetric heating from the linear power of the cell and
+                # the slab the cell is modelled as (its perimeter x the wall
+                # thickness), independently of the solver's own area table
+                perim = drive.duct_perims(reg)[i]
                 qtp = (np.asarray(p_duct)[i * ndc:(i + 1) * ndc]
-                       / reg.duct_params['q_area'][i, didx])
-            Lw = float(reg.duct_params['thickness'][i])
+                       / (perim * Lw))
             k_pre = drive.mat_props(reg.duct, avg_mw[i]).thermal_conductivity
             k_post = drive.mat_props(
                 reg.duct, float(reg.avg_duct_mw_temp[i])).thermal_conductivity
